@@ -447,6 +447,21 @@ def check(ck):
                    "the proxy call returns %s instead of the result member of its own reply (falsy results must be returned as they are)"
                    % prov.show(t), q.loc(freq, rn))
         guards = [gq.nodes[d] for d in dq[rn.id] if gq.nodes[d].kind == "branch"]
+
+        def _reads_result(e_):
+            # a test that looks at the value of the result member (its truthiness, its type ...) makes some results unreturnable; a
+            # test of the reply's shape (`isinstance(reply, dict)`, `"result" in reply`) does not - every other exit is held to the
+            # same return rule above, or raises
+            for x_ in ast.walk(e_):
+                if isinstance(x_, ast.Subscript) and isinstance(x_.slice, ast.Constant) and x_.slice.value == "result":
+                    return True
+                if isinstance(x_, ast.Call) and isinstance(x_.func, ast.Attribute) and x_.func.attr in ("get", "pop", "setdefault") and x_.args and \
+                        isinstance(x_.args[0], ast.Constant) and x_.args[0].value == "result":
+                    return True
+                if isinstance(x_, ast.Name) and any(a_[0] == "item" and a_[2] == ("const", "result") for a_ in prov.value_alts(prov.origin(gq, rn, x_))):
+                    return True
+            return False
+        guards = [b for b in guards if _reads_result(b.test)]
         ck.require(not guards, "C01.4", "%s: return is unconditional" % q.fn(freq), "no guard on the result",
                    "the result is returned only under `%s`" % [dump(b.test) for b in guards], q.loc(freq, rn))
     # the accessor of one batch result: the package function MultiCallIterator.__getitem__ hands self.results[i] to
